@@ -86,7 +86,7 @@ impl Property for C10 {
         Some(Duration::from_secs(60))
     }
     fn expected_labels() -> Vec<&'static str> {
-        vec!["closed", "open", "ok", "err", "le_Intersect", "le_TraceToMaxCurvature", "le_FitRadius", "le_ConstRadius", "le_ConvergeTangent", "le_RansacRadius", "orient_tmax", "orient_direction", "face_detect", "face_given", "chord<1", "chord>1", "equivariance", "strut"]
+        vec!["closed", "open", "ok", "err", "le_Intersect", "le_TraceToMaxCurvature", "le_FitRadius", "le_ConstRadius", "le_ConvergeTangent", "le_RansacRadius", "orient_tmax", "orient_direction", "face_detect", "face_given", "chord<1", "chord>1", "equivariance", "strut", "caliper_chord"]
     }
     fn strategy(_t: Tier) -> BoxedStrategy<Case> {
         let section = (logu(-0.3, 2.0), prop_oneof![3 => unif(0.0, 0.12), 1 => unif(0.12, 0.45)], unif(0.005, 0.03), unif(0.005, 0.03), unif(0.03, 0.12), unif(0.2, 0.95), 75usize..600, prop_oneof![Just(1.0), unif(1.0, 2.0)], iso2(100.0), any::<bool>(), any::<u16>(), prop_oneof![4 => Just(None), 1 => (unif(0.02, 0.05), any::<bool>()).prop_map(Some)])
@@ -553,6 +553,17 @@ fn check(case: &Case) -> Verdict {
                     if let (Some(a), Some(b)) = (&g2.leading_edge, &g2.trailing_edge) {
                         let (da, db) = ((a.point - iso * le.point).norm(), (b.point - iso * te.point).norm());
                         ensure!(da <= 0.04 * s.chord + t5 && db <= 0.04 * s.chord + t5, "C10/equivariance/edges", "edge points moved by {da:e} / {db:e} relative to the section after a rigid motion + reversal + start rotation");
+                    }
+                    // the caliper chord (longest leg of the convex hull as resting line, extreme projections on it) has the same
+                    // length wherever the section is placed; cambered sections only (on a symmetric one two legs tie)
+                    if s.camber >= 0.02 && truth.closed {
+                        if let (Ok(Ok(k0)), Ok(Ok(k1))) = (guarded(|| engeom::airfoil::caliper_chord_line(&curve, &geom.camber).map_err(|e| e.to_string())), guarded(|| engeom::airfoil::caliper_chord_line(&c2, &g2.camber).map_err(|e| e.to_string()))) {
+                            let (l0, l1) = ((k0.chord.te - k0.chord.le).norm(), (k1.chord.te - k1.chord.le).norm());
+                            ensure!((l0 - l1).abs() <= 1e-6 * s.chord + 10.0 * tol, "C10/equivariance/caliper_chord", "caliper chord length {l0:e} before and {l1:e} after a rigid motion + reversal + start rotation (chord {:.4})", s.chord);
+                            let (t0, t1) = ((k0.tangent.te - k0.tangent.le).norm(), (k1.tangent.te - k1.tangent.le).norm());
+                            ensure!((t0 - t1).abs() <= 1e-6 * s.chord + 10.0 * tol, "C10/equivariance/caliper_tangent", "caliper resting line {t0:e} before and {t1:e} after the rigid motion");
+                            cx.label("caliper_chord");
+                        }
                     }
                     ensure!((g2.find_tmax().radius() - tm.radius()).abs() <= t5, "C10/equivariance/tmax", "maximum radius {:e} vs {:e}", g2.find_tmax().radius(), tm.radius());
                 }
